@@ -441,14 +441,59 @@ void Exec::do_step(const Step& st, const Client& cl, int depth) {
       R.has_cur = true;
       R.cur = h;
       Inst& inst = R.m[h];
+      // silent comparison of what is selected now with the model's instance of this handle
+      auto matches = [&]() -> int {  // 1 match, 0 mismatch, -1 abort
+        std::string nm;
+        CallOut c2 = call(false, [&] { MASA::masa_get_name<S>(&nm); });
+        if (c2.oc != OC_RETURN) return -1;
+        if (nm != g_sols[inst.sol].name) return 0;
+        // isolation probe: the parameter name that was touched last in this registry (through whatever handle),
+        // read first thing after the switch, then every parameter
+        std::vector<std::string> order;
+        if (!last_name[prec].empty() && inst.p.count(last_name[prec])) order.push_back(last_name[prec]);
+        for (auto& kv : inst.p) order.push_back(kv.first);
+        for (const std::string& n : order) {
+          S got = S(0);
+          CallOut c3 = call(false, [&] { got = MASA::masa_get_param<S>(n); });
+          if (c3.oc != OC_RETURN) return -1;
+          if (bits_of(got) != bits_of(ms<S>(inst.p[n]))) return 0;
+        }
+        return 1;
+      };
+      orc_eval("C12");
+      int m = matches();
+      if (m == 0 && C) {
+        // attribute: does the C++ select reach the handle in the same state?
+        CallOut cx = call(false, [&] { MASA::masa_select_mms<S>(h); });
+        if (unexpected(cx, "C12", "select_mms")) return;
+        orc_eval("C17");
+        if (matches() == 1) {
+          viol("C17", "C17.select", "masa_select_mms", "after the C masa_select_mms(\"" + h + "\") the selected instance is not the one registered under that handle; the C++ select reaches it");
+          return;
+        }
+      }
+      if (m < 0) {
+        viol("C12", "C12.unexpected_abort", "select", "a read-back after select aborted");
+        stop = true;
+        return;
+      }
       std::string nm;
       CallOut c2 = call(false, [&] { MASA::masa_get_name<S>(&nm); });
       if (unexpected(c2, "C12", "get_name")) return;
-      orc_eval("C12");
       if (nm != g_sols[inst.sol].name) {
         viol("C12", "C12.select.name", "select", "after selecting \"" + h + "\" the selected solution is " + nm + ", expected " + g_sols[inst.sol].name);
         stop = true;
         return;
+      }
+      if (!last_name[prec].empty() && inst.p.count(last_name[prec])) {
+        const std::string n = last_name[prec];
+        S got = S(0);
+        CallOut c3 = call(false, [&] { got = MASA::masa_get_param<S>(n); });
+        if (unexpected(c3, "C12", "get_param")) return;
+        if (bits_of(got) != bits_of(ms<S>(inst.p[n]))) {
+          viol("C12", "C12.select.isolation", g_sols[inst.sol].name + ":" + n, "first read after switching to \"" + h + "\": parameter " + n + " reads " + fmt_ld(got) + " but this handle holds " + fmt_ld(inst.p[n]) + " (the name was last touched through another handle)");
+          inst.p[n] = got;
+        }
       }
       verify_selected<S>(prec, inst, "C12", "C12.select.value");
       return;
@@ -549,6 +594,7 @@ void Exec::do_step(const Step& st, const Client& cl, int depth) {
         if (unexpected(c2, "C11", "get_param")) return;
         orc_eval("C11");
         TRACE("set %s = %s (%s)", n.c_str(), fmt_ld(v).c_str(), admissible ? "admissible" : "wild");
+        last_name[prec] = n;
         if (bits_of(back) != bits_of(v)) {
           bool c17 = false;
           if (C) {  // attribute: does the C++ setter work in the same state?
@@ -599,6 +645,7 @@ void Exec::do_step(const Step& st, const Client& cl, int depth) {
       if (unexpected(co, "C11", "get_param")) return;
       orc_eval("C11");
       log.u64(bits_of(x).lo);
+      last_name[prec] = n;
       if (C) {
         orc_eval("C17");
         if (bits_of(c) != bits_of(x)) viol("C17", "C17.get_param", "masa_get_param", "C returns " + fmt_ld(c) + ", C++ " + fmt_ld(x));
